@@ -29,6 +29,14 @@ pub struct StepPt {
     pub reconfigured: bool,
 }
 pub fn rhs_of(name: &str) -> (Rc<dyn Fn(f64, &[f64]) -> Vec<f64>>, Vec<f64>) {
+    if name == "strong2" {
+        // strongly non-linear and coupled (second derivatives of the right-hand side of order 3-6): one Newton or
+        // secant pass of an implicit solve is NOT enough here, and a stale or frozen Jacobian shows
+        return (
+            Rc::new(|t, y| vec![-(y[0] - (0.3 * t).cos()) + 0.6 * y[1] * y[1], -y[1] + 3.0 * (y[0] * y[1]).sin() + 0.1 * t]),
+            vec![0.9, 0.4],
+        );
+    }
     if let Some(d) = name.strip_prefix("generic") {
         let dim: usize = d.parse().unwrap();
         (Rc::new(move |t, y| generic_rhs(dim, t, y)), generic_y0(dim))
@@ -39,7 +47,7 @@ pub fn rhs_of(name: &str) -> (Rc<dyn Fn(f64, &[f64]) -> Vec<f64>>, Vec<f64>) {
     }
 }
 pub struct Steps;
-const RHS: [&str; 7] = ["generic1", "generic2", "generic3", "rot2:lin-2+logistic", "rot3:osc2.5+gauss", "cgeneric2", "cphase2"];
+const RHS: [&str; 8] = ["generic1", "generic2", "generic3", "strong2", "rot2:lin-2+logistic", "rot3:osc2.5+gauss", "cgeneric2", "cphase2"];
 fn cgeneric(t: f64, z: &[C64]) -> Vec<C64> {
     // complex, two components with different phases, smooth, non-autonomous, bounded growth
     let i = C64::new(0.0, 1.0);
@@ -189,6 +197,12 @@ impl Check for Steps {
             // large minimum step x a sweep of interval lengths across one maximum step: what is left before the end
             // falls below, at and above the minimum step
             if solver != Solver::Euler {
+                // a minimum step far above the tolerance (the two are different units: a test that confuses them shows here)
+                for &tol in &[1e-5, 1e-7] {
+                    for &dtmax in &[0.2, 0.05] {
+                        v.push(StepPt { solver, rhs: "strong2".to_string(), tol, dtmax, len: 4.0, dynamic: false, t0: Some(0.5), dtmin_frac: Some(0.01 / dtmax), reconfigured: false });
+                    }
+                }
                 for rhs in ["generic2", "cgeneric2"] {
                     for &tol in &[1e-2, 1e-4] {
                         for &frac in &[1.0, 0.5, 0.25] {
